@@ -41,6 +41,7 @@ fn c09(seed: u64, case_index: u64, threads: usize, max_n: usize, ops: &str) -> i
             &mut rng,
             &GenLimits {
                 max_n,
+                min_n: 0,
                 dim_weights: [1, 2, 6],
             },
         );
